@@ -256,6 +256,24 @@ func RunTotal(f *Family, tier string) int {
 		}
 		return calls
 	}
+	// The same units once more WITHOUT --extra-imports (the CLI's default; the code that collects additional properties
+	// and decodes maps differs): every unit that mentions additionalProperties and a seeded tenth of the others
+	{
+		var clones []*Unit
+		for _, u := range units {
+			b, _ := json.Marshal(u.Raw)
+			if !strings.Contains(string(b), "additionalProperties") && rng.Float64() >= 0.1 {
+				continue
+			}
+			raw := map[string]any{}
+			for k, v := range u.Raw {
+				raw[k] = v
+			}
+			raw["_noextra"] = true
+			clones = append(clones, &Unit{Idx: len(units) + len(clones), Raw: raw})
+		}
+		units = append(units, clones...)
+	}
 	// Execute needs the texts of sibling documents for priors: concretise once up front
 	for _, u := range units {
 		var texts []string
@@ -283,6 +301,7 @@ func RunTotal(f *Family, tier string) int {
 	dExec := time.Since(tExec).Seconds()
 	for _, u := range units {
 		delete(u.Raw, "_texts")
+		delete(u.Raw, "_noextra")
 	}
 	var events []any
 	type back struct {
